@@ -146,6 +146,36 @@ def cascade(ctx, d):
         bad.append(z3.And(*(pcz + [c != spec])))
     o.desc += ' [%d paths]' % len(res.paths)
     ctx.decide(o, [z3.Not(z3.fpIsNaN(x)), z3.Not(z3.fpIsInf(x)), z3.Or(*bad)], w, cascade_replay(ctx, d, T), grid=False)
+    if o.verdict != 'discharged' and o.verdict != 'violated':
+        # realisation search: the solver's witness did not reproduce (typically the cascade's decision goes through a libm
+        # function, which is uninterpreted, so the model's x is arbitrary).  The specification only changes value at the
+        # powers of ten 10^-3..10^4, so a disagreement with it that is realisable at all is realisable next to one of them:
+        # replay the representable neighbours (+-8 ulps, both signs) of each threshold against the natively built code.
+        rp = cascade_replay(ctx, d, T)
+        npt = H.NPT[T]
+        tried = 0
+        for k in range(-4, 6):
+            c = modes.frac_to_np(T, ru(F(10) ** k, T))
+            pts = [c]
+            lo = hi = c
+            for _ in range(8):
+                lo = np.nextafter(lo, npt(0)); hi = np.nextafter(hi, npt(np.inf))
+                pts += [lo, hi]
+            for v in pts:
+                for sgn in (1, -1):
+                    xv = npt(sgn) * v
+                    tried += 1
+                    try:
+                        rep_, text = rp([xv])
+                    except Exception as e:
+                        rep_, text = False, str(e)
+                    if rep_:
+                        o.verdict = 'violated'
+                        o.reason = text + ' (found by the threshold-neighbour realisation search after: %s)' % (o.reason or '')[:80]
+                        o.model = [core.hexf(xv)]
+                        o.replay = ctx.save_case(o, [xv], getattr(rp, 'case', {}), [])
+                        return
+        o.reason = (o.reason or '') + ' [threshold-neighbour realisation search: %d points, none reproduces]' % tried
 
 
 def cascade_replay(ctx, d, T):
